@@ -19,10 +19,13 @@ Inductive c10case :=
 | CPre (id : Z) (preEnc hasEnc : bool) (o_mpdRefused o_encrypted : bool)
 (* one representation of one server instance: codec encryptable, loaded from stored metadata;
    protection data prepared (or the track recognised as pre-encrypted)? *)
-| CLoad (id : Z) (encryptable stored : bool) (o_prepared : bool).
+| CLoad (id : Z) (encryptable stored : bool) (o_prepared : bool)
+(* the licence URL announced in the MPD of a ClearKey request: host, the "/"-separated parts of the
+   request path, index of the first asset part; observed dashif:Laurl *)
+| CLaURL (id : Z) (host : bytes) (parts : list bytes) (contentIdx : Z) (o_laURL : bytes).
 
 Definition c_id (c : c10case) : Z :=
-  match c with CFn id _ _ _ _ => id | CLa id _ _ _ => id | CSeg id _ _ _ _ _ _ _ _ _ _ => id | CPre id _ _ _ _ => id | CLoad id _ _ _ => id end.
+  match c with CFn id _ _ _ _ => id | CLa id _ _ _ => id | CSeg id _ _ _ _ _ _ _ _ _ _ => id | CPre id _ _ _ _ => id | CLoad id _ _ _ => id | CLaURL id _ _ _ _ => id end.
 
 Definition res_view (r : res bytes) : Z * bytes :=
   match r with Ok b => (0, b) | Err _ => (1, []) | Panic _ => (2, []) end.
@@ -74,6 +77,7 @@ Definition case_ok (c : c10case) : bool :=
   | CPre _ pre has refused enc =>
     Bool.eqb (negb (is_ok (liveMPDdrm true pre))) refused && Bool.eqb (encryptsTrack true has) enc
   | CLoad _ e s o => Bool.eqb (readInitPrepares e s) o
+  | CLaURL _ h ps i o => bytes_eqb (genLaURL h ps i) o
   end.
 
 Definition mismatches (cs : list c10case) : list Z := map c_id (filter (fun c => negb (case_ok c)) cs).
@@ -89,4 +93,5 @@ Definition model_view (c : c10case) : Z * bytes * list (bytes * bytes) :=
     end
   | CPre _ pre has _ _ => ((if is_ok (liveMPDdrm true pre) then 0 else 1) + (if encryptsTrack true has then 10 else 0), [], [])
   | CLoad _ e s _ => ((if readInitPrepares e s then 1 else 0), [], [])
+  | CLaURL _ h ps i _ => (0, genLaURL h ps i, [])
   end.
